@@ -115,7 +115,7 @@ package generator
 // a word is replaced exactly when it is the Go name of a table struct of the file, by the SQL name of that
 // table; every other word is returned unchanged (the splitting into words is regexp `[\w]+`, not modelled)
 //@ func TableNameReplacer.Replace$lit1
-//@   props C16
+//@   props C16 C08
 //@   ensures result == ite(has(rp, word), rp[word], word)
 
 // the SQL literal of a constant: numbers as written, strings single-quoted
@@ -123,7 +123,7 @@ package generator
 
 // #[Type.Const] is replaced by the SQL literal of the constant Const of the enum Type (followed by a comment naming it)
 //@ func ReplaceEnums$lit1
-//@   props C16
+//@   props C16 C08
 //@   nosafety
 //@   requires ana != nil && ana.Pkg != nil && ana.Pkg.Types != nil && len(s) >= 3
 //@   callarg fmt.Sprintf@2 1 sqlLiteral(enumValue.Const)
